@@ -100,15 +100,23 @@ class Ctx:
         return q if self.quick else t
 
     # ---------------------------------------------------------------- gates
-    def hygiene_gate(self):
+    def hygiene_gate(self, props_file=None):
+        """The forbidden words must not occur (not even in comments) in any file the property's theorems depend on; hits in other
+        files of the development (another property's work in progress) are recorded as notes and fail that property's own gate."""
         bad = []
+        closure = coq_closure(props_file or ('Props/%s.v' % self.pid))
         for d, _, fs in os.walk(COQ):
             for f in fs:
                 if f.endswith('.v'):
                     p = os.path.join(d, f)
+                    rel = os.path.relpath(p, COQ)
                     for i, line in enumerate(open(p, errors='replace'), 1):
                         if HYGIENE_RE.search(line):
-                            bad.append('%s:%d: %s' % (os.path.relpath(p, ROOT), i, line.strip()))
+                            msg = '%s:%d: %s' % (os.path.relpath(p, ROOT), i, line.strip())
+                            if rel in closure:
+                                bad.append(msg)
+                            else:
+                                self.notes.append('hygiene (outside the dependency closure of this property): ' + msg)
         for extra in ('Makefile.local', 'CoqMakefile.local', 'Makefile.local-late'):
             if os.path.exists(os.path.join(COQ, extra)):
                 bad.append('unexpected %s (could pass flags to coqc)' % extra)
@@ -129,7 +137,7 @@ class Ctx:
         props_file = props_file or ('Props/%s.v' % self.pid)
         if gen_cb:
             gen_cb()
-        self.hygiene_gate()
+        self.hygiene_gate(props_file)
         src = open(os.path.join(COQ, props_file)).read()
         names = re.findall(r'^(?:Theorem|Example|Lemma|Corollary)\s+([A-Za-z0-9_\']+)', src, re.M)
         self.obligations = len(names)
@@ -395,6 +403,26 @@ def parse_assumption_blocks(out):
     if cur is not None:
         blocks.append(cur)
     return blocks
+
+
+def coq_closure(start):
+    """the .v files (relative to coq/) that `start` transitively requires from the DV library"""
+    seen, todo = set(), [start]
+    while todo:
+        f = todo.pop()
+        if f in seen or not os.path.exists(os.path.join(COQ, f)):
+            continue
+        seen.add(f)
+        src = open(os.path.join(COQ, f), errors='replace').read()
+        src = re.sub(r'\(\*.*?\*\)', ' ', src, flags=re.S)
+        for m in re.finditer(r'From\s+DV\s+Require\s+(?:Import\s+|Export\s+)?(.+?)\.(?=\s|$)', src, re.S):
+            for mod in m.group(1).split():
+                todo.append(mod.replace('.', '/') + '.v')
+        for m in re.finditer(r'Require\s+(?:Import\s+|Export\s+)?(.+?)\.(?=\s|$)', src, re.S):
+            for mod in m.group(1).split():
+                if mod.startswith('DV.'):
+                    todo.append(mod[3:].replace('.', '/') + '.v')
+    return seen
 
 
 def coq_sources():
